@@ -762,6 +762,7 @@ func (c *c02ctx) validateFacts() (map[int64]lenFact, []string) {
 		}
 		f := lenFact{eq: -1}
 		emptyExit := false
+		infeasible := false
 		var eqTable map[int64]int64 // per-type exact length established through a table on this path
 		for i := 0; i+1 < len(path); i++ {
 			cond, isTrue, ok := edgeTaken(path[i], path[i+1])
@@ -771,6 +772,69 @@ func (c *c02ctx) validateFacts() (map[int64]lenFact, []string) {
 			bo, ok := cond.(*ssa.BinOp)
 			if !ok {
 				continue
+			}
+			// a width chosen by a switch on the type and kept in a variable (`width := 0; switch ty {...: width = 4}`;
+			// `if width != 0 && length != width`): the phi is resolved along this path
+			resolvePhi := func(v ssa.Value) ssa.Value {
+				for d := 0; d < 4; d++ {
+					ph, isPhi := v.(*ssa.Phi)
+					if !isPhi {
+						break
+					}
+					found := false
+					for j := i; j >= 1; j-- {
+						if path[j] == ph.Block() {
+							if pi := predIndex(path[j], path[j-1]); pi >= 0 {
+								v, found = ph.Edges[pi], true
+							}
+							break
+						}
+					}
+					if !found {
+						break
+					}
+				}
+				return v
+			}
+			if rx, ry := resolvePhi(bo.X), resolvePhi(bo.Y); rx != bo.X || ry != bo.Y {
+				kx, okx := constIntVal(rx)
+				ky, oky := constIntVal(ry)
+				if okx && oky {
+					// both sides known on this path: an edge that contradicts them makes the path infeasible
+					holds := false
+					switch bo.Op {
+					case token.EQL:
+						holds = kx == ky
+					case token.NEQ:
+						holds = kx != ky
+					case token.LSS:
+						holds = kx < ky
+					case token.LEQ:
+						holds = kx <= ky
+					case token.GTR:
+						holds = kx > ky
+					case token.GEQ:
+						holds = kx >= ky
+					}
+					if holds != isTrue {
+						infeasible = true
+					}
+					continue
+				}
+				if isLenCall(rx) && oky {
+					switch {
+					case bo.Op == token.NEQ && !isTrue, bo.Op == token.EQL && isTrue:
+						f.eq = ky
+						if ky > f.min {
+							f.min = ky
+						}
+					case bo.Op == token.LSS && !isTrue:
+						if ky > f.min {
+							f.min = ky
+						}
+					}
+					continue
+				}
 			}
 			// table form: `want := lengthTable[ty]; want != 0 && dec.len() != want`
 			if tbl, ok := tableLookupByType(p, bo.X, isTypeCall); ok {
@@ -860,7 +924,7 @@ func (c *c02ctx) validateFacts() (map[int64]lenFact, []string) {
 				}
 			}
 		}
-		if emptyExit {
+		if emptyExit || infeasible {
 			continue
 		}
 		for t := range admitted {
